@@ -255,8 +255,14 @@ func structTable(t reflect.Type) (string, []reflect.Type, error) {
 		if i == t.NumField()-1 {
 			sep = ""
 		}
-		fmt.Fprintf(&b, "    { go := %s, json := %s, omitempty := %v, kind := %s, flags := [%s] }%s\n",
-			leanStr(f.Name), jsonName, omit, kindOf(f.Type), strings.Join(fl, ", "), sep)
+		var nested []reflect.Type
+		typesIn(f.Type, &nested)
+		var tn []string
+		for _, nt := range nested {
+			tn = append(tn, leanStr(nt.String()))
+		}
+		fmt.Fprintf(&b, "    { go := %s, json := %s, omitempty := %v, kind := %s, flags := [%s], typs := [%s] }%s\n",
+			leanStr(f.Name), jsonName, omit, kindOf(f.Type), strings.Join(fl, ", "), strings.Join(tn, ", "), sep)
 		// reachable struct types
 		ft := f.Type
 		for ft.Kind() == reflect.Slice || ft.Kind() == reflect.Ptr || ft.Kind() == reflect.Map || ft.Kind() == reflect.Array {
